@@ -41,3 +41,4 @@ for p in confl:
     else:
         subprocess.run([os.path.join(R, "tools", "merge_shared.py"), p], cwd=R)
     print("resolved", p)
+subprocess.run([os.path.join(R, "tools", "normalize_extract.py")], cwd=R)
